@@ -1,6 +1,6 @@
 """C17 Hosts are tried in query-plan order and exhaustion is reported (W-FULL)."""
 from dsim import seams
-from props.common import gen_strategy, quiet_logging, Violations
+from props.common import set_knob, gen_strategy, quiet_logging, Violations
 from worlds.reqpath import ReqPathRun, base_plan, RETRY, RETHROW, IGNORE, RETRY_NEXT_HOST, DECISION_NAMES
 
 ID = 'C17'
@@ -13,6 +13,7 @@ COVERAGE_RULE = ('one run = real Cluster/Session over 2-4 fake nodes; per statem
                  'optional speculative policy; paged statements re-plan per page; distinct = event-log digest; non-trivial = '
                  'a statement moved past its first host or ended in NoHostAvailable')
 RULES = {
+    'C17/attempted': 'ResponseFuture.attempted_hosts (the record behind "listing every attempted host" and the gate of speculative executions) names only hosts a send to which went through',
     'C17/order': 'the nodes that receive a statement form a subsequence of its plan, in plan order',
     'C17/no-repeat': 'a host receives the statement again only directly after a RETRY decision on that host',
     'C17/exhaustion': 'NoHostAvailable is delivered only after the plan iterator is exhausted (every plan host was tried or skipped), and its errors map has an entry for every host of the plan',
@@ -116,6 +117,26 @@ def run_plan(plan, seed, choices=None):
     run = ReqPathRun(plan, seed, choices, horizon=60.0, line_funcs=line_funcs)
     w, sim = run.w, run.w.sim
     page_obs = []
+    # the order in which the driver decides to send: Connection.send_msg calls.  (The order in which bytes reach the sockets of
+    # different connections is the reactor's business: it serves write watchers in any order.)
+    pushes = []
+    sent_ok = set()       # (rid, host address) of every send_msg call that returned normally
+    import functools
+    import re as _re
+    _rid = _re.compile(r'/\*rid=(\d+)\*/')
+    orig_send_msg = w.cconn.Connection.send_msg
+
+    @functools.wraps(orig_send_msg)
+    def send_msg_logged(self_, msg, request_id, cb, *a, **k):
+        m = _rid.search(str(getattr(msg, 'query', '') or ''))
+        if m:
+            pushes.append((sim.nlog, int(m.group(1)), str(self_.endpoint.address)))
+        r_ = orig_send_msg(self_, msg, request_id, cb, *a, **k)
+        if m:
+            sent_ok.add((int(m.group(1)), str(self_.endpoint.address)))
+        return r_
+    set_knob(w.cconn.Connection, 'send_msg', send_msg_logged)
+    addr_idx = dict((nd.addr, nd.idx) for nd in w.fc.nodes)
 
     orig_user = run.user
 
@@ -198,19 +219,27 @@ def run_plan(plan, seed, choices=None):
                     break
                 px = plan_nodes.index(x)
                 if px < pos:
-                    if plan['exec'].get('spec'):
-                        # two executions of one request (the initial one and a speculative one whose timer fired before the initial
-                        # send - a clock jump or a descheduled caller) take their hosts from the plan in order but write them to the
-                        # wire concurrently: attempts that reached the nodes within 10 ms of each other are not ordered
-                        tx = min(e['t'] for e in es if e['node'] == x)
-                        tprev = min(e['t'] for e in es if e['node'] == plan_nodes[pos])
-                        if abs(tx - tprev) < 0.01:
-                            sim.probe('concurrent_executions_sent_in_either_order')
-                            pos = max(pos, px)
-                            continue
+                    # judged on the order of the send_msg calls: two executions of one request (initial + speculative) write to two
+                    # connections, whose bytes the reactor may put on the wire in either order
+                    lo, hi = (bounds[ep], bounds[ep + 1]) if ep else (0, bounds[1])
+                    pushed = []
+                    for (ps_, prid, paddr) in pushes:
+                        if prid == i and lo <= ps_ < hi and addr_idx.get(paddr) in seq and addr_idx[paddr] not in pushed:
+                            pushed.append(addr_idx[paddr])
+                    if len(pushed) == len(seq) and [plan_nodes.index(y) for y in pushed] == sorted(plan_nodes.index(y) for y in pushed):
+                        sim.probe('wire_order_differs_from_send_order')
+                        break
                     V.add('C17/order', 'out-of-plan-order', 'request %d (page epoch %d): nodes %r, plan %r' % (i, ep, seq, plan_nodes))
                     break
                 pos = px
+            if ep == 0 and o.future is not None:
+                # the record of hosts the request was sent to names only hosts whose send went through
+                V.check('C17/attempted')
+                ghosts = [str(h.endpoint.address) for h in (getattr(o.future, 'attempted_hosts', None) or []) if (i, str(h.endpoint.address)) not in sent_ok]
+                if ghosts:
+                    V.add('C17/attempted', 'attempted-hosts-lists-a-host-nothing-was-sent-to',
+                          'request %d: attempted_hosts names %r but no send to it succeeded (sends that went through: %r)'
+                          % (i, ghosts, sorted(a_ for (r_, a_) in sent_ok if r_ == i)))
             V.check('C17/first-host')
             usable = [x for x in plan_nodes if x not in crashed]
             if usable and seq and seq[0] != usable[0] and not plan['exec'].get('spec'):
